@@ -15,13 +15,13 @@ PROPS["C10"] = dict(
              "and on, against the statement's gate formula; a forced ReadWrite open directly after every refused open; the cube again with the "
              "triple stored as int8/16/64, big-endian and unsigned integers (files of other NIX implementations); the cube again as the SECOND "
              "open of the file while a forced ReadOnly / ReadWrite handle of the same process holds it open (gate must follow the requested mode); "
-             "the triples older than 1.2.0 again on files WITHOUT the id attribute (older formats had none); "
+             "one path re-planted with every triple in turn (fixed modification time) and opened back to back in one mode; the triples older than 1.2.0 again on files WITHOUT the id attribute (older formats had none); "
              "FormatVersion order laws on all ordered pairs and all cube triples. "
              "Exhaustive within that cube, hence 'exploration' with exhaustive:true.",
         note="Trusted: HDF5 attribute I/O used to plant the version triple; the formula is expressed relative to the version a "
              "freshly created file reports, not hard-coded."),
     evidence=dict(
-        keys=dict(evaluations=("sum", [("count", "opens"), ("count", "opens_typed"), ("count", "opens_second"), ("count", "opens_noid"), ("count", "pair_laws"), ("count", "triple_laws")]),
+        keys=dict(evaluations=("sum", [("count", "opens"), ("count", "opens_typed"), ("count", "opens_second"), ("count", "opens_noid"), ("count", "opens_inplace"), ("count", "pair_laws"), ("count", "triple_laws")]),
                   distinct_nontrivial=("distinct", "outcomes")),
         rule="every version triple of the cube [Lx-1..Lx+2]x[Ly-2..Ly+2]x[Lz-1..Lz+3] around the library version L plus "
              "INT_MIN/-1/INT_MAX extremes is written into the header of a valid file (HDF5 C API) and opened in "
